@@ -168,6 +168,9 @@ func runC16(c *ev.Ctx) {
 	for _, f := range animCorpus(r, c.N(200, 30000), 28) {
 		files = append(files, c16File{Name: f.Name, Data: f.Data, OwnWriter: true})
 	}
+	for _, f := range muxAnimCorpus(r, c.N(300, 30000)) {
+		files = append(files, c16File{Name: f.Name, Data: f.Data, OwnWriter: true})
+	}
 	nh := c.N(6000, 1000000)
 	for k := 0; k < nh; k++ {
 		if f, ok := c16Hand(r, k); ok {
